@@ -291,11 +291,13 @@ class Env:
         # uninterpreted vocabulary of the specification.
         self.opaque = opaque
         self.depth = 0
+        self.floordiv = False        # opt-in: `a // b` becomes the uninterpreted atom floordiv(a, b) instead of Unknown
         self._locals: Optional[Set[str]] = None
 
     def clone(self) -> 'Env':
         e = Env(self.model, self.fn, self.inline, self.self_call, self.opaque)
         e.vars, e.fun_alias, e.depth = dict(self.vars), dict(self.fun_alias), self.depth
+        e.floordiv = self.floordiv
         return e
 
     def local_names(self) -> Set[str]:
@@ -357,7 +359,7 @@ def from_ast(e: ast.AST, env: Env) -> Term:
             return l * t_pow(r, Term.const(-1))
         if isinstance(e.op, ast.Pow):
             return t_pow(l, r)
-        if isinstance(e.op, ast.FloorDiv):
+        if isinstance(e.op, ast.FloorDiv) and getattr(env, 'floordiv', False):
             if l.is_const() and r.is_const() and r.const_value() != 0 and l.const_value().denominator == 1 and r.const_value().denominator == 1:
                 return Term.const(Fraction(int(l.const_value()) // int(r.const_value())))
             return t_call('floordiv', [l, r])
